@@ -207,6 +207,22 @@ let run_node (id : ostring) (body : Sx.t list) : ostring =
     with Oracle_miss m -> Printf.sprintf "ORACLEMISS %s %d %s" id !k m)
   | _ -> "BADCASE " ^ id
 
+(* ------------------------------------------------------------------ paging (C08) *)
+let run_page (id : ostring) (body : Sx.t list) : ostring =
+  match body with
+  | [limit; n; h; gstart; gcnt] ->
+    let nn = int_of_sx n in
+    let dummy i = { b_prev = []; b_added = None; b_removed = None; b_ts = cz_of_z (ZA.of_int i); b_txs = None } in
+    let chain = List.init nn dummy in
+    let st = { s_interval = Z0; s_fee = N0; s_genesis = N0; s_limit = n_of_sx limit } in
+    let m = match blocks_page st chain (n_of_sx h) with
+      | Ok [] -> "-1 0"
+      | Ok (b :: r) -> Printf.sprintf "%s %d" (show_z b.b_ts) (1 + List.length r)
+      | Err e -> err_name e in
+    let g = str gstart ^ " " ^ str gcnt in
+    if m = g then "OK " ^ id ^ " 1" else Printf.sprintf "MISMATCH %s 0 page model=%s go=%s" id m g
+  | _ -> "BADCASE " ^ id
+
 (* ------------------------------------------------------------------ main *)
 let () =
   let file = Sys.argv.(1) in
@@ -217,6 +233,7 @@ let () =
         match it with
         | L (A "clockcase" :: A id :: body) -> run_clock id body
         | L (A "nodecase" :: A id :: body) -> run_node id body
+        | L (A "pagecase" :: A id :: body) -> run_page id body
         | L (A kind :: A id :: _) -> "BADKIND " ^ kind ^ " " ^ id
         | _ -> "BADITEM"
       with
